@@ -1,7 +1,7 @@
 (* Props/C17.v — Index arithmetic, mode-selection preprocessing (theorems about the code as
    regenerated from /repo/pyttb/pyttb_utils.py at run time).  Only statements, `exact`, Print Assumptions. *)
 From Coq Require Import List ZArith Arith Bool Permutation Sorted.
-From PV Require Import Base.Index Np.NpZ Proofs.NpZProofs Gen.GenUtils Proofs.UtilsProofs.
+From PV Require Import Base.Index Np.NpZ Proofs.NpZProofs Gen.GenUtils Proofs.UtilsProofs Proofs.RowsProofs.
 Import ListNotations.
 
 (* mutually inverse bijections between subscripts of a shape and 0..size-1 *)
@@ -98,6 +98,26 @@ Theorem C17_dimscheck_rejects_count : forall N m d, (forall x, In x d -> 0 <= x)
   (m > N \/ (m <> N /\ m <> zlen d)) -> tt_dimscheck N (Some m) (Some d) None = Err.
 Proof. exact dimscheck_rejects_count. Qed.
 Print Assumptions C17_dimscheck_rejects_count.
+
+(* row membership: location of every search row in the source (last occurrence when repeated), -1 if absent *)
+Theorem C17_ismember : forall search source : mat,
+  np_size2 search <> 0 -> np_size2 source <> 0 ->
+  exists matched results, tt_ismember_rows search source = Ok (matched, results) /\
+    length matched = length search /\ length results = length search /\
+    forall i, (i < length search)%nat ->
+      let r := nth i search [] in
+      ((exists j, (j < length source)%nat /\ nth j source [] = r) ->
+         nth i matched false = true /\
+         exists j, nth i results 0 = Z.of_nat j /\ (j < length source)%nat /\ nth j source [] = r /\
+                   forall j', (j < j' < length source)%nat -> nth j' source [] <> r) /\
+      ((forall j, (j < length source)%nat -> nth j source [] <> r) ->
+         nth i matched false = false /\ nth i results 0 = -1).
+Proof. exact tt_ismember_rows_spec. Qed.
+Print Assumptions C17_ismember.
+
+Example C17_ismember_example :
+  tt_ismember_rows [[4; 6]; [1; 9]; [2; 6]] [[2; 6]; [2; 1]; [4; 6]; [2; 6]] = Ok ([true; false; true], [2; -1; 3]).
+Proof. reflexivity. Qed.
 
 (* non-vacuity: a concrete request meets the hypotheses *)
 Example C17_dimscheck_example :
